@@ -124,7 +124,12 @@ def check_program(item):
     # forced contexts
     ctxs = conform.contexts(am)[:6]
     nforced = 0
+    # only states that some input can reach (graph reachability from the start state, data ignored): an unreachable leftover
+    # state can only be entered by corrupting the struct
+    graph_reach = set(id(x) for x in am.dfa.dfs())
     for si in range(len(am.states)):
+        if id(am.states[si]) not in graph_reach:
+            continue
         for ctx in ctxs:
             for c in reps + ([END] if am.eof else []):
                 nforced += 1
@@ -154,13 +159,15 @@ def check_program(item):
                     else:
                         si, ctx = where
                         script = cp.op_zero() + cp.op_start() + cp.op_state(si) + cp.op_data(ctx) + (cp.op_end() if c == END else cp.op_feed(bytes([c])))
+                        if "yields" in msg and c != END:
+                            script += b"".join(cp.op_feed(bytes([c])) for _ in range(39))
                         desc = "machine state %d with outputs %r on byte %r" % (si, ctx, c)
                         inp, st, cx = (bytes([c]) if c != END else b"").hex(), si, ctx
                     if "yields" in msg and kind == "reachable":
                         # livelock at the calling level: re-invoke feed on the same byte 40 times; every call must yield without moving the pointer
                         script = cp.op_zero() + cp.op_start() + (cp.op_feed(where) if where else b"") + b"".join(cp.op_feed(bytes([c])) for _ in range(40))
                     recs, status = cp.run(script, timeout=3)
-                    if "yields" in msg and kind == "reachable" and status == "ok":
+                    if "yields" in msg and status == "ok":
                         fs = [r for r in recs if r[0] == "F"][-40:]
                         if len(fs) == 40 and all(r[1].startswith("YIELD") and r[2] in (0, -1) for r in fs):
                             status = "timeout"
@@ -300,6 +307,10 @@ def classify(it, p):
     """structural predicates for known findings"""
     if p["kind"].startswith("spin-") and p.get("via_override") and kf9_shape(it.get("ast")):
         return "C04:KF9:nonconsuming-cycle-through-override-target"
+    if p["kind"].startswith("spin-") and it.get("ast") is not None:
+        from checks import c01
+        if c01.optional_loop_shape(it["ast"]) and any(st[0] == "yield" for st in U.walk(tuple(it["ast"]))):
+            return "C04:KF21:optional-starting-with-loop"
     return None
 
 
